@@ -16,7 +16,7 @@ PROPS = {
             "the capacity callback returns an upper bound of the entries queued when the signals were collected (run loop wiring, read not proved)",
             "termination of the `while let Ok(..) = try_recv()` loop (exec_allows_no_decreases_clause): not proved",
         ],
-        unreached=["Inner::flush_async (send, unpark, future)", "that a Drained status means the queue was observed empty SINCE the previous call (temporal; P1)"],
+        unreached=["the future returned by flush_async beyond its first poll (stand-in future)", "that a Drained status means the queue was observed empty SINCE the previous call (temporal; P1)"],
     ),
     "C02": dict(
         verus=[("emf_value", {}), ("emf_finish", {})],
@@ -54,7 +54,7 @@ PROPS = {
     "C08": dict(
         # emf_fresh: the per-name / per-record automata of the validation functions start from the empty maps that
         # format_with_multiplicity hands them (their precondition) - a leak of one entry's state into the next is a C08 failure too
-        verus=[("emf_cfg", {"profile_debug": True}), ("emf_cfg", {"profile_debug": False}), ("emf_validate", {}), ("emf_metric", {}), ("emf_finish", {}), ("emf_fresh", {})],
+        verus=[("emf_cfg", {"profile_debug": True}), ("emf_cfg", {"profile_debug": False}), ("emf_validate", {}), ("emf_config", {}), ("emf_metric", {}), ("emf_finish", {}), ("emf_fresh", {})],
         technique="Verus function contracts on the extracted real Emf::builder / all_validations / no_validations / skip_all_validations (once per build profile) and on validate_name / timestamp / validate_string / string over a trusted ghost-map model of hashbrown's entry API",
         level_text="Deductive proof (Verus/z3) that every documented way of enabling validations really enables all three validation switches in BOTH build profiles "
                    "(cfg(debug_assertions) resolved mechanically per profile), that no_validations disables all, and that skip_all_validations is monotone and touches nothing else; "
@@ -62,13 +62,13 @@ PROPS = {
                    "(absent -> written, declared dimension -> written, written -> error and map unchanged) holds for the real validate_string body, with the frame 'validation touches no output buffer' and "
                    "'the uniqueness switch only gates the check'; plus an inductive lemma that of n writes under one name at most one is accepted. For the real ValueWriter::metric body: per-metric dimensions without split mode are an error, and the uniqueness automaton per (name, record index) "
                    "(first metric recorded with its index; same metric twice in one record, a metric under a string's name, a metric under a declared dimension name: error), gated only by the switches. "
-                   "EntryDimensions configuration checks and the missing-dimension sweep in finish() are not reached.",
+                   "EntryDimensions configuration checks and the missing-dimension sweep in finish() are not reached. EntryWriter::config: an EntryDimensions is rejected (one error, nothing else changes) exactly after a metric with its own dimensions, when set twice, or when empty; otherwise the entry's dimension sets become the product with the configured sets, names already written keep their record, names are only added (as not-yet-supplied dimensions), with unique-name validation off no error is recorded and with both dimension validations off nothing changes; the two switch configurations only raise their flag; config never touches the formatter's buffers.",
         level_note="Trusted: EmfBuilder::build forwards the switches unchanged (assumed contract, checked syntactically), derive(Default) on three bools is all-false, rewrites R4/R6/R7/R8, Verus + z3. "
                    "The record-level invariant 'no two members share a name' (hashbrown code in ValueWriter::metric) is not reached.",
         explanation="validation switches for both build profiles",
         assumptions=["EmfBuilder::build forwards `validation` unchanged", "derive(Default) for Validation is all-false",
                      "hashbrown entry_ref / OccupiedEntry::{get, get_mut, insert, remove} / VacantEntryRef::insert behave as a map keyed by the name's text (units/emf_validate.py prelude)"],
-        unreached=["EntryDimensions config checks (EntryWriter::config: dyn Any downcast)", "missing-dimension sweep in finish() (map iteration)", "byte-for-byte equality of validated and unvalidated output (follows from the frames only for the functions under contract)"],
+        unreached=["that EntryWriter::config registers EVERY configured dimension name (its loops are verified for an arbitrary name: what they do to one name, not which names they visit); the product of dimension sets (K4, assumed)", "missing-dimension sweep in finish() (map iteration)", "byte-for-byte equality of validated and unvalidated output (follows from the frames only for the functions under contract)"],
     ),
     "C01": dict(
         # bgq_run: the writer loop leaves only through shut_down (final drain): an entry appended before the last handle went away is
@@ -83,7 +83,7 @@ PROPS = {
         explanation="sequential core of the background queue against a ghost stream log",
         assumptions=["crossbeam ArrayQueue is a linearizable FIFO", "park/unpark only affect latency: park_deadline returns no later than next_flush",
                      "Receiver::run wiring (drain -> wakers -> park) is read, not proved", "BoxEntrySink::append_any forwards entry.boxed() once (trait-object dispatch, not extracted)"],
-        unreached=["Receiver::run", "BackgroundQueueBuilder::do_build (thread spawn)", "BoxEntrySink / BoxEntry forwarding (see C15)"],
+        unreached=["the spawned thread actually running Receiver::run (thread::Builder::spawn_scoped stand-in)", "BoxEntrySink / BoxEntry forwarding (see C15)"],
     ),
     "C05": dict(
         verus=[("bgq", {}, ["shut_down", "flush_stream", "drain_until_deadline", "consume", "drop", "forget"]), ("bgq_run", {}), ("bgq_build", {})],
@@ -93,8 +93,8 @@ PROPS = {
         level_note="Trusted: as C01, plus std thread::JoinHandle::join, AtomicBool::store, and that Receiver::run calls shut_down when it sees the signal (read, not proved). "
                    "The clause 'after forget the thread exits once the last queue handle is dropped' is NOT decided here.",
         explanation="shutdown order of the background queue",
-        assumptions=["Receiver::run returns self.shut_down() on the shutdown signal (read, not proved)", "Drop runs exactly once"],
-        unreached=["whether Arc::get_mut can ever succeed after forget() (run keeps its own clone: read, not decided)", "AttachHandle::drop (macro-generated)", "entries appended after shutdown are discarded"],
+        assumptions=["Drop runs exactly once"],
+        unreached=["whether Arc::get_mut can ever succeed after forget() (run keeps its own clone: read, not decided)", "the detach function a global sink stores in its AttachHandle (that it drops the join handle; AttachHandle::drop itself: unit globalguards)", "entries appended after shutdown are discarded"],
     ),
     "C09": dict(
         verus=[("bgq", {}, ["push"]), ("bgq_build", {})],
@@ -104,7 +104,7 @@ PROPS = {
         level_note="Trusted: crossbeam ArrayQueue::force_push semantics; absence of a spurious overflow increment (a negative fact about a &self call) is not expressible and not claimed; R1/R2.",
         explanation="push path of the bounded queue",
         assumptions=["ArrayQueue::force_push displaces the oldest element and preserves the order of the rest", "capacity reaches ArrayQueue::new unchanged (do_build, read not proved)"],
-        unreached=["BackgroundQueueBuilder::capacity / do_build"],
+        unreached=["BackgroundQueueBuilder::capacity (setter)"],
     ),
     "C03": dict(
         verus=[("emf_value", {}, ["write_observation", "write_metric_value", "write_metric"]), ("emf_metric", {}), ("emf_finish", {})],
@@ -154,7 +154,7 @@ PROPS = {
         explanation="keyed aggregation: key selection, per-field strategies, flush",
         assumptions=["generated Merge / Key impls meet the trait contracts (static_key_matches compares the key text, merge appends the input)",
                      "hashbrown raw-entry / drain behave as a map keyed by key equality"],
-        unreached=["MutexSink, tee; WorkerSink::send / flush (channel sends)", "generated Merge / Key impls (metrique-macro aggregate.rs)", "AggregateSink for Aggregate<T> (embedded single aggregate)"],
+        unreached=["WorkerSink::send / flush (channel sends)", "generated Merge / Key impls (metrique-macro aggregate.rs)", "Aggregate::insert_and_send_to"],
     ),
     "C11": dict(
         verus=[("hist", {}), ("hist_shared", {}), ("hist_exp", {})],
@@ -175,7 +175,7 @@ PROPS = {
         explanation="histogram capture, re-aggregation, sort-and-merge and exponential glue conservation",
         assumptions=["the `histogram` dependency: add(value, count) adds count to the bucket containing value, iteration yields every bucket once with its range and count, the atomic variant is linearizable",
                      "OrderedFloat's order places ==-equal floats next to each other (so runs are maximal)"],
-        unreached=["bucket arithmetic of the `histogram` crate (6.25% bound)", "SharedHistogram::add_value's Capturer (textual twin of the verified one, &self strategy)",
+        unreached=["bucket arithmetic of the `histogram` crate (6.25% bound)", "interleaved add_value calls on one SharedHistogram",
                    "Histogram::add_value / close wiring, HistogramClosed::write"],
     ),
     "C12": dict(
